@@ -70,6 +70,10 @@ func (g *c12Gen) construct(d int, e *c12Env) (string, string) {
 		e.set(name, v)
 		return "{% set " + name + " = " + vn + " %}", ""
 	case 1: // macro call: parameter visible only inside the macro body; sets inside do not leak
+		if name == "b" {
+			// a macro WITHOUT parameters whose body sets both names: nothing may leak out either
+			return "{{ mz() }}", "[z]"
+		}
 		vn, v := g.val()
 		return "{{ m" + name + "(" + vn + ") }}", "[" + v + "]"
 	case 2: // with
@@ -141,7 +145,7 @@ func HarnessC12() {
 	env := &c12Env{frames: []map[string]string{{"a": A}}}
 	env.push() // top-level private frame
 	body, want := g.seq(verifParam("depth", 1), env)
-	src := "{% macro ma(a) %}[{{ a }}{% set b = \"leak\" %}]{% endmacro %}{% macro mb(b) %}[{{ b }}{% set a = \"leak\" %}]{% endmacro %}" +
+	src := "{% macro ma(a) %}[{{ a }}{% set b = \"leak\" %}]{% endmacro %}{% macro mb(b) %}[{{ b }}{% set a = \"leak\" %}]{% endmacro %}{% macro mz() %}[z{% set a = \"leak\" %}{% set b = \"leak\" %}]{% endmacro %}" +
 		"{{ g }}|" + body
 	verifObserve("src", src)
 	// snapshot of the caller's data
